@@ -1,5 +1,16 @@
-/- C16 — clone (initial: RawLRU; the clone is rebuilt by `put`s, so equality is a real statement) -/
-import Caches.Lemmas.RawLru
+/-
+  C16 — a clone is observationally identical to the original, then independent.
+
+  `RawLRU::clone` rebuilds the cache entry by entry with `put` (raw.rs:200, repaired to walk the list and not the
+  hash index); `SegmentedCache` and `WTinyLFUCache` clone their parts; `TinyLFU`, the sketch rows and the doorkeeper
+  are plain data. The theorems say the rebuilt object *equals* the original as a model state — same capacities,
+  contents, values, recency order in every segment, callback flag, estimator — for every well-formed state, so every
+  operation sequence applied to both gives identical results (`*_lockstep`, any history). Independence afterwards is
+  structural in the model (values, no sharing); on the real code it is the harness's job: clone, drive both, drop one
+  (`clone` / `clonefrom` / `swap` / `dropalt` operations, allocator balance at the end).
+-/
+import Caches.Lemmas.Reach
+set_option linter.unusedSectionVars false
 namespace C16
 open M M.RawLru
 variable {κ ν : Type} [DecidableEq κ]
@@ -12,5 +23,33 @@ theorem rawlru_clone_lockstep (c c' : RawLru κ ν) (h : c.Inv) (hc : c.cloneImp
     c'.put k v = c.put k v ∧ c'.get k = c.get k ∧ c'.remove k = c.remove k := by
   rw [clone_eq c h] at hc; injection hc with hc; subst hc; exact ⟨rfl, rfl, rfl⟩
 
+/-- any history applied to the clone and to the original ends in the same state -/
+theorem rawlru_clone_history (c c' : RawLru κ ν) (h : c.Inv) (hc : c.cloneImpl = .ok c') (ops : List (RawOp κ ν)) :
+    runOps RawLru.step c' ops = runOps RawLru.step c ops := by
+  rw [clone_eq c h] at hc; injection hc with hc; subst hc; rfl
+
+/-- the clone of a clone taken at any point of any history equals the state at that point -/
+theorem rawlru_clone_anywhere (cap : Nat) (cb : Bool) (c0 : RawLru κ ν) (h0 : RawLru.new cap cb = some c0)
+    (ops : List (RawOp κ ν)) : ∃ c, runOps RawLru.step c0 ops = .ok c ∧ c.cloneImpl = .ok c := by
+  obtain ⟨c, hr, hi⟩ := runOps_inv RawLru.step RawLru.Inv RawLru.step_inv ops c0 (RawLru.inv_new cap cb c0 h0)
+  exact ⟨c, hr, clone_eq c hi⟩
+
+/-- SegmentedCache: both segments, with their own capacities -/
+theorem slru_clone_eq (s : Slru κ ν) (h : s.Inv) : s.cloneImpl = .ok s := Slru.clone_eq s h
+
+theorem slru_clone_history (s s' : Slru κ ν) (h : s.Inv) (hc : s.cloneImpl = .ok s') (ops : List (SlruOp κ ν)) :
+    runOps Slru.step s' ops = runOps Slru.step s ops ∧ s'.cap = s.cap ∧ s'.prot.cap = s.prot.cap := by
+  rw [Slru.clone_eq s h] at hc; injection hc with hc; subst hc; exact ⟨rfl, rfl, rfl⟩
+
+/-- WTinyLFUCache: window, main cache and the estimator (sketch rows, doorkeeper bits, window counter) -/
+theorem wtinylfu_clone_eq (c : WTinyLfu κ ν) (h : c.Inv) : c.cloneImpl = .ok c := WTinyLfu.clone_eq c h
+
+theorem wtinylfu_clone_history (kh : κ → UInt64) (c c' : WTinyLfu κ ν) (h : c.Inv) (hc : c.cloneImpl = .ok c')
+    (ops : List (CacheOp κ ν)) :
+    runOps (WTinyLfu.step kh) c' ops = runOps (WTinyLfu.step kh) c ops ∧ c'.est = c.est := by
+  rw [WTinyLfu.clone_eq c h] at hc; injection hc with hc; subst hc; exact ⟨rfl, rfl⟩
+
 example : (⟨3, [(1, 10), (2, 20)], true⟩ : RawLru Nat Nat).cloneImpl = .ok ⟨3, [(1, 10), (2, 20)], true⟩ := by rfl
+example : ({ prob := ⟨2, [(1, 10)], false⟩, prot := ⟨3, [(2, 20)], false⟩ } : Slru Nat Nat).cloneImpl
+    = .ok { prob := ⟨2, [(1, 10)], false⟩, prot := ⟨3, [(2, 20)], false⟩ } := by rfl
 end C16
